@@ -46,11 +46,11 @@ type botSess struct {
 	closed   bool
 	sent     []string
 	game     *bot.Game
-	cur      *aiCall // the thinker inside GetMove (moveLock admits one)
+	cur      *aiCall   // the thinker inside GetMove (moveLock admits one)
 	gated    []*aiCall // all thinkers inside GetMove; more than one = moveLock does not serialise them
 	lockBad  bool
-	entered  int     // GetMove calls that were gated
-	drained  int     // GetMove calls that found their context cancelled on entry
+	entered  int // GetMove calls that were gated
+	drained  int // GetMove calls that found their context cancelled on entry
 	accept   bool
 	accCalls int
 	chats    int
